@@ -329,7 +329,10 @@ func init() {
 	natives[pkgSDK+"(ValAddress).String"] = addrString("val")
 	natives["strings.HasPrefix"] = func(x *Exec, st *State, fr *Frame, at ssa.Instruction, a []Val) (Val, bool) {
 		x.D.DeclareFun("str.prefixof_", []string{SStr, SStr}, SBool)
-		return Val{T: App(SBool, "str.prefixof_", a[1].T, a[0].T), Typ: types.Typ[types.Bool]}, true
+		r := App(SBool, "str.prefixof_", a[1].T, a[0].T)
+		// a prefix is not longer than the string
+		st.assume(Implies(r, App(SBool, "<=", App(SInt, "str.len_", a[1].T), App(SInt, "str.len_", a[0].T))))
+		return Val{T: r, Typ: types.Typ[types.Bool]}, true
 	}
 	natives["fmt.Errorf"] = func(x *Exec, st *State, fr *Frame, at ssa.Instruction, a []Val) (Val, bool) {
 		e := x.D.Fresh("errorf", SIface)
@@ -621,6 +624,27 @@ func init() {
 		return Val{T: mkMInt(a[len(a)-1].T), Typ: nil}, true
 	}
 	natives[big+"NewInt"] = bigFromInt
+	// (*big.Int).SetString(s, base): a deterministic parse; on failure the result is nil (and ok false)
+	natives[big+"(*Int).SetString"] = func(x *Exec, st *State, fr *Frame, at ssa.Instruction, a []Val) (Val, bool) {
+		if len(a) != 3 || a[1].T.Sort != SStr || a[2].T.Sort != SInt {
+			return Val{}, false
+		}
+		x.D.DeclareFun("int.parse.ok", []string{SStr, SInt}, SBool)
+		x.D.DeclareFun("int.parse.val", []string{SStr, SInt}, SInt)
+		ok := x.define(st, "parseok", App(SBool, "int.parse.ok", a[1].T, a[2].T))
+		r := Ite(ok, mkMInt(App(SInt, "int.parse.val", a[1].T, a[2].T)), App(SMInt, "mk-mint", TTrue, IntLit(0)))
+		rv := Val{T: x.define(st, "bigint", r), Typ: a[0].Typ}
+		return Val{T: Term{"unit", SUnit}, Tup: []Val{rv, {T: ok, Typ: types.Typ[types.Bool]}}}, true
+	}
+	// x.Cmp(y): the sign of x - y; a nil operand is a nil dereference (run-time check kind "bignil")
+	natives[big+"(*Int).Cmp"] = func(x *Exec, st *State, fr *Frame, at ssa.Instruction, a []Val) (Val, bool) {
+		if len(a) != 2 || a[0].T.Sort != SMInt || a[1].T.Sort != SMInt {
+			return Val{}, false
+		}
+		x.safety(st, fr, at, "bignil", And(Not(mintNil(a[0].T)), Not(mintNil(a[1].T))))
+		l, r := mintV(a[0].T), mintV(a[1].T)
+		return Val{T: Ite(App(SBool, ">", l, r), IntLit(1), Ite(App(SBool, "<", l, r), IntLit(-1), IntLit(0))), Typ: types.Typ[types.Int]}, true
+	}
 	// z.SetUint64(v) / z.SetInt64(v): the result, and -- big.Int being modelled by value -- the new
 	// value of the receiver's own SSA name (`estimate.SetUint64(x)` as a statement mutates estimate).
 	// Other names aliasing the same big.Int are not updated (assumption: no aliasing of big.Ints).
